@@ -34,7 +34,30 @@ def _np_asarray(I, args, kw):
     """numpy.asarray(v, dtype=...) on an opaque vector value: the same abstract vector (the float32 cast is part of
     the numeric layer that the contracts treat as uninterpreted)."""
     I.ver.note_assumption("numpy.asarray(v, dtype) returns the same abstract vector value (numerics are uninterpreted)")
-    return I.force(args[0])
+    v = args[0]
+    if isinstance(v, VOpt) and I.spec:
+        return v.val()
+    return I.force(v)
+
+
+def _np_stack(I, args, kw):
+    """numpy.stack(list of vectors, axis=0): an opaque matrix value, a function of the list of (abstract) vectors"""
+    xs = args[0] if I.spec else I.force(args[0])
+    if not isinstance(xs, VSeq):
+        raise Unsupported("numpy.stack of %s" % type(xs).__name__)
+    t = xs.t
+    f = z3.Function("np_stack_" + "".join(c if c.isalnum() else "_" for c in t.name), t.sort(), TUn("NpMat").sort())
+    I.ver.note_assumption("numpy.stack / numpy.mean are uninterpreted functions of their (abstract) arguments")
+    return VUn(f(unwrap(xs, t)), TUn("NpMat"))
+
+
+def _np_mean(I, args, kw):
+    """numpy.mean(matrix, axis=0): an opaque vector (sort Vec), a function of the abstract matrix"""
+    m = args[0] if I.spec else I.force(args[0])
+    if not (isinstance(m, VUn) and m.t.nm == "NpMat"):
+        raise Unsupported("numpy.mean of %s" % type(m).__name__)
+    f = z3.Function("np_mean_axis0", TUn("NpMat").sort(), TUn("Vec").sort())
+    return VUn(f(m.e), TUn("Vec"))
 
 
 def _timedelta(I, args, kw):
@@ -134,6 +157,8 @@ def _thread_pool_executor(I, args, kw):
 
 TABLE = {
     ("numpy", "asarray"): _np_asarray,
+    ("numpy", "stack"): _np_stack,
+    ("numpy", "mean"): _np_mean,
     ("datetime", "timedelta"): _timedelta,
     ("datetime", "now"): _nondet_real("datetime.now"),
     ("concurrent", "ThreadPoolExecutor"): _thread_pool_executor,
